@@ -257,6 +257,25 @@ CHECKS = {
         note="Trusted: the reference algebra vf/c18_ref.py (bubble-sort blade product, exact "
              "arithmetic, self-checked against vf.exact.RatFun). Bounded assurance, not a proof "
              "for arbitrary dimension or metric entries."),
+    "C03": dict(
+        category="exploration", design="DESIGN.md 4/C03",
+        technique="bounded-exhaustive enumeration of operator programs over every (operator, left "
+                  "kind, right kind) and every two-operator nesting, executed on pymbolic operands "
+                  "and on plain numbers, compared through the reference evaluator on the full box "
+                  "and in a free non-commutative ring",
+        text="Every (operator, left kind, right kind) with at least one expression side over 13 "
+             "expression kinds and 9 numeric kinds (the special operands 0, 1, -1, 0.0, 1.0, True, "
+             "False included) for the 12 binary operators, the unary operators and abs, every "
+             "two-operator program in both nestings (thorough: all 144 operator pairs over 11 "
+             "kinds), the call / subscript / attribute / comparison / logical constructor "
+             "methods, the smart constructors on all operand lists up to length 3, and ordering "
+             "comparisons in both orders: the resulting tree must evaluate (reference semantics) "
+             "to the plain Python value in every environment of the box where the plain "
+             "computation is defined, + - * programs must agree in the free non-commutative ring "
+             "(no reordering), and < <= > >= must raise TypeError.",
+        note="Trusted: vf/refsem.py, CPython's operators. Programs containing '/' are judged on "
+             "Fraction-valued environments only (int / int is a float in Python); float results "
+             "within 1e-12."),
 }
 
 NOT_BUILT_REASON = "check not built yet in this revision (planned, see DESIGN.md section 4)"
